@@ -137,6 +137,38 @@ def sleep (c : State) (duration : Int) : Outcome :=
   if duration < 0 then .panic .invalidDuration c [.sleepLog duration]
   else .ok c [.sleepLog duration, .sleep duration]
 
+/-! ### the Go statements transcribed above (top-level statements of each method, whitespace
+normalised); Props/C19Clock.lean pins them to what harness/extract/x_c19.go reads from
+driver/clocks/sysclk_linux.go on every run -/
+
+def epochSource : List String := ["c.mu.Lock()", "defer c.mu.Unlock()", "return c.epoch"]
+
+def stepSource : List String :=
+  ["c.mu.Lock()", "defer c.mu.Unlock()",
+   "if c.adjustment != nil { setFrequency(c.log, c.adjustment.afterFreq) c.adjustment = nil }",
+   "setOffset(c.log, offset)",
+   "if c.epoch == math.MaxUint64 { panic(\"epoch overflow\") }",
+   "c.epoch++"]
+
+def adjustSource : List String :=
+  ["c.mu.Lock()", "defer c.mu.Unlock()",
+   "if c.adjustment != nil { c.adjustment = nil }",
+   "if duration < 0 { panic(\"invalid duration value\") }",
+   "duration = duration / time.Second * time.Second",
+   "if duration == 0 { duration = time.Second }",
+   "setFrequency(c.log, frequency+offset.Seconds()/duration.Seconds())",
+   "c.adjustment = &adjustment{ clock: c, duration: duration, afterFreq: frequency, }",
+   "go func(log *slog.Logger, adj *adjustment) { sleep(log, adj.duration) adj.clock.mu.Lock() defer adj.clock.mu.Unlock() if adj == adj.clock.adjustment { setFrequency(log, adj.afterFreq) } }(c.log, c.adjustment)"]
+
+def goroutineSource : List String :=
+  ["sleep(log, adj.duration)", "adj.clock.mu.Lock()", "defer adj.clock.mu.Unlock()",
+   "if adj == adj.clock.adjustment { setFrequency(log, adj.afterFreq) }", "args: c.log, c.adjustment"]
+
+def sleepSource : List String :=
+  ["c.log.LogAttrs(context.Background(), slog.LevelDebug, \"sleeping\", slog.Duration(\"duration\", duration))",
+   "if duration < 0 { panic(\"invalid duration value\") }",
+   "sleep(c.log, duration)"]
+
 /-! ### histories of method calls -/
 
 inductive Op where
